@@ -32,16 +32,16 @@ class Result:
 # --------------------------------------------------------------------------- stream checks
 STREAM = {
     # prop: (profile, extra harness args quick, extra harness args thorough)
-    "C01": ("c01", ["--cases", 900, "--cost", 2500000, "--bigshare", 300], ["--cases", 9000, "--cost", 30000000, "--bigshare", 40]),
-    "C02": ("c02", ["--cases", 700, "--cost", 1000000, "--bigshare", 350], ["--cases", 7000, "--cost", 20000000, "--bigshare", 30]),
-    "C03": ("c03", ["--cases", 500, "--cost", 1500000], ["--cases", 4000, "--cost", 8000000, "--bigshare", 10]),
-    "C04": ("c04", ["--sweep", "--cases", 400, "--cost", 500000], ["--sweep", "--cases", 3000, "--cost", 10000000, "--bigshare", 20]),
-    "C08": ("c08", ["--counts", "--cases", 700, "--cost", 1000000, "--bigshare", 350], ["--counts", "--cases", 6000, "--cost", 20000000, "--bigshare", 20]),
-    "C09": ("c09", ["--cases", 900, "--cost", 1500000, "--bigshare", 450], ["--cases", 9000, "--cost", 30000000, "--bigshare", 40]),
-    "C05": ("c05", ["--cases", 400, "--cost", 500000], ["--cases", 4000, "--cost", 8000000]),
-    "C15": ("c15", ["--cases", 600, "--cost", 1400000, "--bigshare", 300], ["--cases", 6000, "--cost", 15000000, "--bigshare", 20]),
-    "C14": ("c14", ["--cases", 300, "--cost", 300000], ["--cases", 3000, "--cost", 5000000]),
-    "C13": ("c13", ["--cases", 500, "--cost", 1200000, "--frames", 2], ["--cases", 4000, "--cost", 12000000, "--bigshare", 10]),
+    "C01": ("c01", ["--cases", 900, "--cost", 2500000, "--bigshare", 300], ["--cases", 24000, "--cost", 90000000, "--bigshare", 40]),
+    "C02": ("c02", ["--cases", 700, "--cost", 1000000, "--bigshare", 350], ["--cases", 18000, "--cost", 60000000, "--bigshare", 30]),
+    "C03": ("c03", ["--cases", 500, "--cost", 1500000], ["--cases", 12000, "--cost", 40000000, "--bigshare", 25]),
+    "C04": ("c04", ["--sweep", "--cases", 400, "--cost", 500000], ["--sweep", "--cases", 9000, "--cost", 30000000, "--bigshare", 20]),
+    "C08": ("c08", ["--counts", "--cases", 700, "--cost", 1000000, "--bigshare", 350], ["--counts", "--cases", 15000, "--cost", 60000000, "--bigshare", 20]),
+    "C09": ("c09", ["--cases", 900, "--cost", 1500000, "--bigshare", 450], ["--cases", 24000, "--cost", 90000000, "--bigshare", 40]),
+    "C05": ("c05", ["--cases", 400, "--cost", 500000], ["--cases", 8000, "--cost", 20000000]),
+    "C15": ("c15", ["--cases", 600, "--cost", 1400000, "--bigshare", 300], ["--cases", 15000, "--cost", 45000000, "--bigshare", 20]),
+    "C14": ("c14", ["--cases", 300, "--cost", 300000], ["--cases", 8000, "--cost", 15000000]),
+    "C13": ("c13", ["--cases", 500, "--cost", 1200000, "--frames", 2], ["--cases", 12000, "--cost", 40000000, "--bigshare", 10]),
 }
 
 
